@@ -217,7 +217,14 @@ pub fn eval_case(w: &mut Worker, c: &Case) -> Result<Outcome, String> {
         out.labels.push("create-threw".into());
         return Ok(out);
     }
-    let keys: Vec<String> = resp["keys"].as_array().map(|a| a.iter().filter_map(|x| x.as_str().map(|s| s.to_string())).collect()).unwrap_or_default();
+    let mut keys: Vec<String> = resp["keys"].as_array().map(|a| a.iter().filter_map(|x| x.as_str().map(|s| s.to_string())).collect()).unwrap_or_default();
+    let withdrawn = resp["disabled"].as_bool() == Some(true);
+    if withdrawn {
+        // the instance holds a dynamic-slot component: the runtime offers nothing (bindingMapUpdate answers false and the
+        // engine updates through the tree); the fall-back itself is still compared with a fresh creation below
+        out.labels.push(if keys.is_empty() { "B:withdrawn-by-runtime(empty)".into() } else { "B:withdrawn-by-runtime".into() });
+        keys.clear();
+    }
     out.labels.push(if keys.is_empty() { "B:empty".into() } else { "B:non-empty".into() });
     if fu.has_include {
         out.labels.push("has-include".into());
@@ -272,6 +279,10 @@ pub fn run(tier: Tier, seed: u64, findings: &Findings) -> i32 {
     let mut wc = gen::wxml::WxmlCfg::new(tier.pick(2, 3), tier.pick(2, 3));
     // the same few fields in many positions
     wc.expr.idents = vec!["a", "b", "c", "list", "k", "m"];
+    // dynamic-slot components of the stub DOM (their content exists once per slot instance, which no map reaches: the
+    // runtime must not offer the fast path then) and `slot:` value references on their children
+    wc.dyn_tags = true;
+    wc.slot_refs = true;
     let check = C07 { cfg: wc };
     let mut report = engine::Report::default();
     report.merge(super::run_regress(&check, &cfg, findings));
